@@ -22,7 +22,7 @@ ASSUMPTIONS = [
     "with delete=False a directory->file replacement over a non-empty directory cannot converge and must surface through onerror",
 ]
 MONITORS = "independent walk of the workspace (bytes, directories, exec bits) after apply; second compare's action lists; onerror recorder; audit-hook log of removals"
-REQUIRED_COUNTERS = ["priors_with_more_than_a_thousand_stale_files", "targets_with_prefix_named_sibling_directories", "targets_with_entries_without_hash", "link_type_lists_with_an_unavailable_first_type", "implicit_parent_targets", 
+REQUIRED_COUNTERS = ["there_and_back_histories", "priors_with_more_than_a_thousand_stale_files", "targets_with_prefix_named_sibling_directories", "targets_with_entries_without_hash", "link_type_lists_with_an_unavailable_first_type", "implicit_parent_targets", 
     "same_index_histories_through_sqlite", "targets_handed_as_view", "root_key_file_targets", "priors_with_symlink_to_directory", "same_index_histories", "two_cache_targets", "implicit_parent_targets", "unavailable_directory_object_cases", "applies", "kind_swap_cases", "nested_dir_deletions", "lazy_targets", "explicit_targets", "delete_off_cases",
     "unavailable_source_cases", "second_compares", "exec_entries_checked", "link/hardlink", "link/symlink", "link/copy",
 ]
@@ -517,7 +517,42 @@ def run_shard(ctx):
                 res.violation(f"target-file-missing/root-key-file-over-{prior}/reported", f"the single-file target was not created over a prior {prior}: {errs[:2]}", case=case, detail=cfg)
             ctx.drop(d)
 
-        if case % 8 == 5:
+        def there_and_back(case=case, rng=rng):
+            """the same two index handles in both roles: A is checked out, then B over it (A handed over as the old side), then A again"""
+            d = ctx.fresh("ab")
+            ws = os.path.join(d, "ws")
+            os.makedirs(ws)
+            link = rng.choice(["copy", "copy", "hardlink", "symlink"])
+            cache = env.local_odb(os.path.join(d, "cache"), type=[link])
+            fa, _ea = gen.tree(rng, depth=rng.randrange(1, 3), fanout=3, odd=0.2, dup=0.3, min_files=2, empty_dirs=False)
+            fb, _eb, _ops = gen.mutate_tree(rng, fa, (), None, kind_swaps=True)
+            if not fb:
+                fb = {("only",): b"b"}
+            indexlab.save_tree_to_cache(ctx, cache, fa, d, name="a-src")
+            indexlab.save_tree_to_cache(ctx, cache, fb, d, name="b-src")
+            A = indexlab.explicit_index(fa, (), (), cache_odb=cache)
+            B = indexlab.explicit_index(fb, (), (), cache_odb=cache)
+            um = rng.random() < 0.5
+            cfg = {"link": link, "update_meta": um, "a": sorted("/".join(k) for k in fa), "b": sorted("/".join(k) for k in fb)}
+            res.evaluated()
+            res.count("there_and_back_histories")
+            errs = []
+            steps = [("A", None, A, fa), ("B-over-A", A, B, fb), ("A-over-B", B, A, fa)]
+            if rng.random() < 0.5:
+                steps.append(("B-over-A-again", A, B, fb))
+            for name, old_, new_, want in steps:
+                apply(compare(old_, new_, delete=True), ws, fs, update_meta=um, storage="cache", onerror=lambda s_, dst, e: errs.append((name, dst, repr(e))), links=[link])
+                got = walk_files(ws)
+                if got != want or errs:
+                    miss, extra = sorted(set(want) - set(got))[:2], sorted(set(got) - set(want))[:2]
+                    res.violation(f"not-converged/same-handles-in-both-roles/{name}", f"after {name}: missing={miss} extra={extra} errors={errs[:1]}", case=case, detail=cfg)
+                    break
+            env.reset_staging()
+            ctx.drop(d)
+
+        if case % 40 == 23:
+            ctx.guard(case, there_and_back)
+        elif case % 8 == 5:
             ctx.guard(case, history)
         elif case % 16 == 9:
             ctx.guard(case, root_file)
